@@ -131,3 +131,166 @@ Theorem C14_hypotheses_satisfiable :
   schema_ok ex_schema ex_R /\ family_refs ex_schema ex_R /\ ex_R ex_rt /\ keys_closed ps_empty_set.
 Proof. exact (conj ex_schema_ok (conj ex_family (conj ex_R_root keys_closed_empty))). Qed.
 Print Assumptions C14_hypotheses_satisfiable.
+
+(* ---- the partition (Proofs/{SameLeaves,MergeThruSame,PartBase,PartExtract,PartSel,
+   Partition}.v): for a plain valid object and a set S of leaves of its field set (key
+   fields of list members excluded): removing S leaves no member of S and keeps every other
+   leaf with its value; extracting S with the key fields yields a well-formed valid object
+   (or null for an empty selection) that holds every leaf of S and, besides S, only key
+   fields of list members; merging the extraction over the removal succeeds and gives the
+   object back up to member order.  Needs scalar key fields (refuted otherwise: removing a
+   leaf inside a map-valued key changes the member's identity) and, for the merge clause,
+   a list root that is nothing but a list (the merge_null_right corner). ---- *)
+From Coq Require Import Arith Lia.
+From SMD Require Import Model.Validate Model.Merge Spec.Agree Proofs.RemoveFrame Proofs.RemoveMono Proofs.EnLaws Proofs.NodeSet
+  Proofs.KeyFields Proofs.FieldSetBase Proofs.FieldSetPaths Proofs.FieldSetWf Proofs.RemoveWf Proofs.ResolveLaws
+  Proofs.ValidateLaws Proofs.RemoveBase Proofs.ExtractLaws Proofs.ReconcileBase
+  Proofs.TreeFacts Proofs.RefDiffBoth Proofs.MergeLaws Proofs.MergeAgree Proofs.MergeThru
+  Proofs.VeqbResolve Proofs.SameLeaves Proofs.PartBase Proofs.PartExtract Proofs.PartSel
+  Proofs.MergeThruSame Proofs.RemoveExt Proofs.Partition.
+Theorem C14_removal_partition :
+  forall (s : schema) (R : typeref -> Prop) (tr : typeref) (v : value) (S : pset),
+         schema_ok s R ->
+         family_refs s R ->
+         R tr ->
+         keys_nodefault s R ->
+         keys_scalar s R ->
+         wf_value v = true ->
+         conforms s tr false v = true ->
+         plain v = true ->
+         leaf_subset s tr v S ->
+         (forall p : path,
+          wf_path p = true -> ps_has p S = true -> present s tr (remove s tr v S) p = false) /\
+         (forall (p : path) (n : rnode),
+          In (p, n) (leaf_nodes s tr v) ->
+          wf_path p = true ->
+          (forall q : path, ps_has q S = true -> is_prefix q p = false) ->
+          has_leaf s tr (remove s tr v S) p n = true).
+Proof. exact remove_partition. Qed.
+Print Assumptions C14_removal_partition.
+
+Theorem C14_extraction_partition :
+  forall (s : schema) (R : typeref -> Prop) (tr : typeref) (v : value) (S : pset),
+         schema_ok s R ->
+         family_refs s R ->
+         R tr ->
+         keys_nodefault s R ->
+         keys_scalar s R ->
+         wf_value v = true ->
+         conforms s tr false v = true ->
+         plain v = true ->
+         leaf_subset s tr v S ->
+         let x := extract s tr true v S in
+         wf_value x = true /\
+         (x = VNull \/ conforms s tr false x = true) /\
+         (forall (p : path) (n : rnode),
+          In (p, n) (leaf_nodes s tr v) ->
+          wf_path p = true -> ps_has p S = true -> has_leaf s tr x p n = true) /\
+         (forall (p : path) (n : rnode),
+          In (p, n) (leaf_nodes s tr x) ->
+          wf_path p = true ->
+          ps_has p S = true \/
+          (exists (pre : list pe) (fl : fieldlist) (k : string),
+             p = pre ++ PEKey fl :: PEField k :: nil /\ In k (map fst fl))).
+Proof. exact extract_partition. Qed.
+Print Assumptions C14_extraction_partition.
+
+Theorem C14_merge_gives_the_original_back :
+  forall (s : schema) (R : typeref -> Prop) (tr : typeref) (v : value) 
+           (S : pset) (out : value),
+         schema_ok s R ->
+         family_refs s R ->
+         R tr ->
+         keys_nodefault s R ->
+         keys_scalar s R ->
+         list_root_pure s tr v ->
+         wf_value v = true ->
+         conforms s tr false v = true ->
+         plain v = true ->
+         leaf_subset s tr v S ->
+         merge s tr (remove s tr v S) (extract s tr true v S) = Some (Some out) ->
+         veq_assoc s tr out v = true.
+Proof. exact merge_partition. Qed.
+Print Assumptions C14_merge_gives_the_original_back.
+
+Theorem C14_merge_of_the_parts_succeeds :
+  forall (s : schema) (R : typeref -> Prop) (tr : typeref) (v : value) (S : pset),
+         schema_ok s R ->
+         family_refs s R ->
+         R tr ->
+         keys_nodefault s R ->
+         keys_scalar s R ->
+         list_root_pure s tr v ->
+         wf_value v = true ->
+         conforms s tr false v = true ->
+         plain v = true ->
+         leaf_subset s tr v S ->
+         exists out : value,
+           merge s tr (remove s tr v S) (extract s tr true v S) = Some (Some out) /\
+           veq_assoc s tr out v = true.
+Proof. exact merge_partition_total. Qed.
+Print Assumptions C14_merge_of_the_parts_succeeds.
+
+Theorem C14_partition_needs_scalar_keys :
+  ~
+         (forall (s : schema) (R : typeref -> Prop) (tr : typeref) (v : value) (S : pset),
+          schema_ok s R ->
+          family_refs s R ->
+          R tr ->
+          keys_nodefault s R ->
+          wf_value v = true ->
+          conforms s tr false v = true ->
+          plain v = true ->
+          leaf_subset s tr v S ->
+          (forall p : path,
+           wf_path p = true -> ps_has p S = true -> present s tr (remove s tr v S) p = false) /\
+          (forall (p : path) (n : rnode),
+           In (p, n) (leaf_nodes s tr v) ->
+           wf_path p = true ->
+           (forall q : path, ps_has q S = true -> is_prefix q p = false) ->
+           has_leaf s tr (remove s tr v S) p n = true)).
+Proof. exact remove_partition_needs_scalar_keys. Qed.
+Print Assumptions C14_partition_needs_scalar_keys.
+
+Theorem C14_merge_partition_needs_pure_list_root :
+  ~
+         (forall (s : schema) (R : typeref -> Prop) (tr : typeref) (v : value) 
+            (S : pset) (out : value),
+          schema_ok s R ->
+          family_refs s R ->
+          R tr ->
+          keys_nodefault s R ->
+          keys_scalar s R ->
+          wf_value v = true ->
+          conforms s tr false v = true ->
+          plain v = true ->
+          leaf_subset s tr v S ->
+          merge s tr (remove s tr v S) (extract s tr true v S) = Some (Some out) ->
+          veq_assoc s tr out v = true).
+Proof. exact merge_partition_needs_pure_list_root. Qed.
+Print Assumptions C14_merge_partition_needs_pure_list_root.
+
+Theorem C14_partition_example :
+  (forall p : path,
+          wf_path p = true ->
+          ps_has p px_S = true -> present ex_schema ex_rt px_removed p = false) /\
+         has_leaf ex_schema ex_rt px_removed (PEField "items" :: px_x :: PEField "vv" :: nil)
+           (RNode ex_num (VInt 1)) = true /\
+         has_leaf ex_schema ex_rt px_extracted (PEField "items" :: px_y :: PEField "vv" :: nil)
+           (RNode ex_num (VInt 2)) = true /\
+         merge ex_schema ex_rt px_removed px_extracted =
+         Some
+           (Some
+              (VMap
+                 (("aa", VInt 1)
+                  :: ("items",
+                      VList
+                        (VMap
+                           (("name", VStr "x")
+                            :: ("tags", VList (VStr "t2" :: VStr "t1" :: nil))
+                               :: ("vv", VInt 1) :: nil)
+                         :: VMap (("name", VStr "y") :: ("vv", VInt 2) :: nil) :: nil))
+                     :: ("mm", VMap (("k", VInt 5) :: nil)) :: nil))).
+Proof. exact partition_example_clauses. Qed.
+Print Assumptions C14_partition_example.
+
